@@ -101,4 +101,22 @@ theorem response_order_depended_on_iteration_before_fix :
     RespOrder.sort RespOrder.ltOld [(999, 1, 404), (999, 1, 400)] ≠
       RespOrder.sort RespOrder.ltOld [(999, 1, 400), (999, 1, 404)] := RespOrder.old_order_depends_on_iteration
 
+/-- the audited comparators: seven order by one string key that is unique among the sorted items (operation names,
+    group names, the methods of one webhook, discriminator mapping keys, variant names, the JSON type names of a
+    type-discriminated sum, the names of an interface's implementations — `sortedKeys` in the model), and
+    `sortResponseInfos` is the lexicographic `RespOrder.lt` (folded code, content type, real code) -/
+def auditedComparators : List String :=
+  ["gen/generator.go:sortOperations: { return strings.Compare(a.Name, b.Name) }",
+   "gen/generator.go:groupOperations: { return strings.Compare(a.Name, b.Name) }",
+   "gen/router.go:Add: { return strings.Compare(a.Method, b.Method) }",
+   "gen/schema_gen_sum.go:oneOf: { return strings.Compare(a.Key, b.Key) }",
+   "gen/schema_gen_sum.go:oneOf: { return strings.Compare(a.Name, b.Name) }",
+   "gen/ir/responses.go:sortResponseInfos: { lcode, rcode := l.StatusCode, r.StatusCode if l.WithStatusCode { lcode = 999 } if r.WithStatusCode { rcode = 999 } if lcode != rcode { return lcode - rcode } if c := strings.Compare(l.ContentType.String(), r.ContentType.String()); c != 0 { return c } return l.StatusCode - r.StatusCode }",
+   "gen/ir/template_helpers.go:TypeDiscriminator: { return strings.Compare(a.JXTypes, b.JXTypes) }",
+   "gen/ir/type_iface.go:ListImplementations: { return strings.Compare(a.Name, b.Name) }"]
+
+/-- **fact tie 3**: every sort with a caller-supplied comparator in `gen/` and `gen/ir/` is one of the audited ones,
+    spelled as audited (regenerated on every run from the source) -/
+theorem facts_sort_comparators : Facts.GenOrder.sortComparators = auditedComparators := rfl
+
 end C10
